@@ -39,7 +39,7 @@ T4 == {List(<<Leaf("S", 2), List(<<x, Wrapped(<<y, z>>, CS, s2)>>, CS, s1), Leaf
           x \in LT, y \in LT, z \in LT, u \in {Leaf("P", 3), Leaf("P", 9)}, v \in LT, s1 \in BOOLEAN, s2 \in BOOLEAN}
 
 Tops == {t \in T1 \cup T1b \cup T2 \cup T3 \cup T4 : Aligned(t)}
-Widths == IF Big THEN {12, 13, 14, 16, 18, 20} ELSE {12, 14, 17, 20}
+Widths == IF Big THEN {12, 13, 14, 16, 18, 20, 26, 32} ELSE {12, 14, 17, 20, 26}
 Conts == {[c0 |-> <<32, 38>>, c1 |-> <<38, 32>>], [c0 |-> <<32, 38>>, c1 |-> <<32, 32, 38, 32>>]}
 
 ASSUME PrintT(<<"UNIVERSE", Cardinality(T1), Cardinality(T1b), Cardinality(T2), Cardinality(T3), Cardinality(T4), Cardinality(Tops)>>)
